@@ -34,7 +34,8 @@ GRID = os.path.join(facts.VERIF, "fixtures", "derive_grid", "gen.py")
 
 
 def build_fixture(mode, seed):
-    key = facts.tree_key(False, "grid|%s|%d" % (mode, seed))
+    # (the generated manifest has path dependencies on the analysed tree: its location is part of the key)
+    key = facts.tree_key(False, "grid|%s|%d|%s" % (mode, seed, facts.REPO))
     out = os.path.join(facts.WORK, "grid", "%s-%d-%s" % (mode, seed, key))
     marker = os.path.join(out, "expected.json")
     if not os.path.exists(marker):
@@ -54,7 +55,45 @@ def build_fixture(mode, seed):
     return out
 
 
+def vec_items(ctx, chk):
+    """The repeated-field reader (`Vec<T>::deserialize_tagged`) keeps an element only if decoding it consumed input: at
+    every `items.push(item)` the prover must derive len(remainder) < len(bytes) from the tests that dominate the push.
+    (An element type that decodes from nothing - String, an all-optional struct - would otherwise be read out of an
+    empty list: `[]` serialises to nothing and comes back as `[""]`.)"""
+    from discharge import make_prover, Lin, len_of
+    from expr import walk, strip_ref
+    from mirlite import callee
+    zb = ctx.crate("zvt_builder")
+    crates = [zb, ctx.crate("zvt")]
+    bodies = [b for b in zb.bodies.values() if b.raw.get("impl_trait") == "zvt_builder::ZvtSerializerImpl" and
+              b.raw.get("name") == "deserialize_tagged" and ty_str(b.raw.get("impl_self")).startswith("alloc::vec::Vec<")]
+    if not chk.require(len(bodies) == 1, "C12-e/vec-impl", "Vec<T>::deserialize_tagged", "repeated-field reader not found (%d)" % len(bodies), "",
+                       nontrivial=False):
+        return
+    b = bodies[0]
+    pr = make_prover(b, crates)
+    vx = pr.vx
+    pushes = [(bb, t) for bb, t in b.calls() if callee(t) == "alloc::vec::Vec::<T, A>::push"]
+    chk.require(len(pushes) >= 1, "C12-e/vec-item-consumed", "Vec<T>::deserialize_tagged", "no push of a decoded element found", "", b.sp(),
+                nontrivial=False)
+    for bb, t in pushes:
+        item = vx.operand(t["args"][1], bb)
+        # the decode call this element comes from, its input and its remainder
+        calls = [x for x in walk(item) if x[0] == "call" and x[1] == layout.DESER]
+        ok, why = False, "the pushed value does not come from a deserialize_tagged call"
+        if calls:
+            c = calls[0]
+            inp = strip_ref(c[2][0])
+            rem = ("proj", c, ("@Ok", "0", "1"))
+            goal = len_of(pr, inp).add(len_of(pr, rem), -1).add(Lin(1), -1)
+            ok, why = pr.prove_nonneg(goal, bb)
+        chk.require(ok, "C12-e/vec-item-consumed", "Vec<T>::deserialize_tagged push@bb%d" % bb,
+                    "an element is kept although decoding it may have consumed nothing (%s): an empty list would read back with a "
+                    "phantom element" % str(why)[:160], "len(remainder) < len(input) at the push", t.get("sp"))
+
+
 def run(ctx, chk):
+    vec_items(ctx, chk)
     mode = "thorough" if ctx.tier == "thorough" else "quick"
     fx = build_fixture(mode, ctx.seed)
     with open(os.path.join(fx, "expected.json")) as fh:
@@ -65,7 +104,7 @@ def run(ctx, chk):
         chk.fail("C12/compiles", "derive_grid", "the generated well-formed structs do not compile with the macro: %s" % str(e)[-2600:],
                  key="C12/compiles|derive_grid")
         return
-    grid = mirlite.Crate(facts.load(out, idx, "derive_grid", "rlib"))
+    grid = mirlite.Crate(facts.load(out, idx, "derive_grid", "rlib"), lower=getattr(ctx, "lower", False))
     crates = [ctx.crate("zvt_builder"), ctx.crate("zvt"), grid]
     impls = layout.codec_impl_bodies(grid)
     cmds = {}
